@@ -366,7 +366,7 @@ NOT_APPLICABLE = {
 QUICK_SETS = {
     "C08": ["O8.4a", "O8.4c", "O8.4d", "O6.4c"],
     "C03": ["O14.0", "O14.1.base", "O14.5.base", "O14.6.base", "O14.7.base", "O14.4.base", "O13.2a", "O13.1a", "O13.1b", "O13.3a"],
-    "C05": ["O5.1a", "O5.1b", "O5.1c", "O5.1d", "O5.2a", "O5.2b", "O5.2c", "O14.5.base", "O13.3e"],
+    "C05": ["O5.1a", "O5.1b", "O5.1c", "O5.1d", "O5.2a", "O5.2b", "O5.2c", "O14.5.base"],  # O13.3e (scan-open flags, 9-15 min with large SAT variance) is C13's quick obligation; for C05 it runs in the thorough tier
     "C10": ["O10.5", "O10.3", "O10.1b", "O10.1c", "O6.1", "O14.5.base", "O14.6.base", "O13.1b", "O13.3a", "O13.3d", "OE.rawos_d0"],
     "C11": ["O11.c1", "O11.c4", "O14.5.base", "O14.5.nobase", "O14.6.base", "O14.1.base", "O14.7.base", "O6.3", "O6.4c"],
     "C14": ["O14.0", "O14.1.base", "O14.2.base", "O14.3.base", "O14.4.base", "O14.5.base", "O14.6.base", "O14.6.nobase", "O14.7.base", "O14.8", "OE.inval_d0", "OE.rawos_d0"],
